@@ -77,6 +77,24 @@ def _fn_sir():
     return {"coq": text, "translated": done, "refused": failed}
 
 
+@unit("fn_sir2")
+def _fn_sir2():
+    """functions of sensitive_item_removal.py that only the function-level tie (coq/refine, props/CnnG.v) speaks about; kept out of G_fn_sir.v,
+    which the text model itself is built on"""
+    import os
+
+    sys.path.insert(0, os.path.dirname(os.path.abspath(__file__)))
+    import translate
+    import netconan.sensitive_item_removal as pm
+    import netconan.utils.juniper_secrets as js
+
+    text, done, failed = translate.translate_module(
+        pm.__file__, pm, wanted=["_get_or_generate_sensitive_word_replacement", "_anonymize_value", "_extract_enclosing_text", "_check_sensitive_item_format"],
+        oracles=("cisco_type7", "md5_crypt", "sha512_crypt"), xmods={"juniper_secrets": (js, "G_fn_jun")},
+        external=("_extract_enclosing_text", "_check_sensitive_item_format"), requires=("G_fn_sir",))
+    return {"coq": text, "translated": done, "refused": failed}
+
+
 @unit("fn_cli")
 def _fn_cli():
     import os
